@@ -1,7 +1,7 @@
 (* C17 — Every reply is well-formed, and RESP and JSON outputs agree.
    This file holds only the property theorems, each closed by a lemma of Proofs/. *)
 From T38 Require Import Base.Bytes Base.Utf8 Model.Json Model.Templates
-  Model.JsonMode Proofs.JsonModeProofs Model.WsFrame Model.RespOut Model.JsonScan Proofs.JsonScanProofs Proofs.JsonRespProofs Proofs.JsonProofs Proofs.JsonTmplProofs Proofs.JsonGenProofs Proofs.JsonWsProofs.
+  Model.JsonMode Proofs.JsonModeProofs Model.WsFrame Model.RespOut Model.JsonScan Proofs.JsonScanProofs Proofs.JsonRespProofs Proofs.JsonProofs Proofs.JsonTmplProofs Proofs.JsonGenProofs Proofs.JsonWsProofs Model.Mvt Proofs.MvtProofs.
 From T38 Require Gen.Templates.
 
 (* jsonString / appendJSONString (fast path and Go's json.Marshal escaping: control bytes, quote,
@@ -216,6 +216,36 @@ Print Assumptions c17_sub_message_valid.
 Theorem c17_sub_message_delims_refuted : exists p, valid_json (sub_msg_delims p) = false.
 Proof. exact sub_msg_delims_refuted. Qed.
 Print Assumptions c17_sub_message_delims_refuted.
+
+(* Vector tiles (MVT queries): one tile, three transports.  RESP returns the tile bytes; JSON mode
+   carries them in the "mvt" member as base64 written by scanWriter.writeFoot; the HTTP route
+   GET /key/z/x/y.mvt runs the query in JSON mode, takes the member out again and decodes it
+   (handleInputCommand, case HTTP).  The two sites are an encode / decode pair; which encoding each
+   names is read from the source on every run (Gen.Templates.mvt_json_encoding / mvt_http_decoding).
+   With the encodings the source names now: for EVERY tile the member decodes back to it and the HTTP
+   route answers 200, application/vnd.mapbox-vector-tile and exactly the tile RESP returns. *)
+Theorem c17_mvt_http_delivers_tile : forall tile res, wf_bytes tile ->
+  exists member,
+    mvt_member Gen.Templates.mvt_json_encoding tile = Some member /\
+    mvt_http Gen.Templates.mvt_http_decoding res (Some member) = Some (mkH 200 CTMvt tile).
+Proof. exact mvt_http_delivers_tile. Qed.
+Print Assumptions c17_mvt_http_delivers_tile.
+
+(* base64 itself (encoding/base64 transcribed for StdEncoding and RawStdEncoding): decoding with the
+   encoding that encoded gives the bytes back, for all byte strings *)
+Theorem c17_base64_roundtrip : forall k t, wf_bytes t -> decode k (encode k t) = Some t.
+Proof. exact same_kind_roundtrip. Qed.
+Print Assumptions c17_base64_roundtrip.
+
+(* ... and the padded encoder in front of the unpadded decoder (seeded change C17/9) is refuted for
+   every tile whose length is not a multiple of 3: the HTTP route answers 500, the JSON content type
+   and the base64 text *)
+Theorem c17_mvt_std_into_raw_refuted : forall tile res,
+  wf_bytes tile -> (N.of_nat (length tile)) mod 3 <> 0 ->
+  decode BRawStd (encode BStd tile) = None /\
+  mvt_http n_RawStdEncoding res (mvt_member n_StdEncoding tile) = Some (mkH 500 CTJson (encode BStd tile)).
+Proof. exact (fun tile res Hw Hn => conj (std_into_raw_rejected tile Hw Hn) (mvt_http_std_raw_refuted tile res Hw Hn)). Qed.
+Print Assumptions c17_mvt_std_into_raw_refuted.
 
 (* non-vacuity: hole fills exist (a string needing every kind of escape, an integer, a boolean),
    and the regenerated list is not empty *)
